@@ -3,4 +3,4 @@ import Driver.Fam.Rows
 open Driver
 /-- families of area "rows" -/
 def main (args : List String) : IO UInt32 :=
-  run [Fam.rowdec, Fam.rowexh, Fam.varlena, Fam.rowfile, Fam.rowviews, Fam.authid, Fam.rowmut, Fam.rowfilemut, Fam.rowraw, Fam.varlenaraw, Fam.rowmasks] args
+  run [Fam.rowdec, Fam.rowexh, Fam.varlena, Fam.rowfile, Fam.rowviews, Fam.authid, Fam.rowmut, Fam.rowfilemut, Fam.rowraw, Fam.varlenaraw, Fam.rowmasks, Fam.rowexh4] args
